@@ -85,7 +85,8 @@ def tree_close(a, b, rt):
     if a.shape != b.shape:
         return False
     with np.errstate(invalid="ignore"):
-        return bool(np.all((np.abs(a - b) <= rt * (1 + np.abs(b))) | (a == b) | (np.isnan(a) & np.isnan(b))))
+        # an infinite reference must be met exactly (|a - b| <= rt * (1 + inf) would accept anything)
+        return bool(np.all((np.isfinite(b) & (np.abs(a - b) <= rt * (1 + np.abs(b)))) | (a == b) | (np.isnan(a) & np.isnan(b))))
 
 
 _PATHS = {}
